@@ -50,6 +50,11 @@ TABLE = [
      "generic TLV/LV over all types and value lengths 0..255 with continuation octets; six concrete TLVs over action x status x names (multi-octet characters) through "
      "unpack / from_tlv / holder; all 144 (action,status) pairs through the mapping helpers; every (class, foreign type, route) combination must raise the mismatch error",
      ORACLE_NOTE, "DESIGN.md section 4 C08"),
+    ("C09", "exploration",
+     PBT + ": metamorphic relation decode(unit + suffix) == decode(unit) over valid units from the reference encoders x structured suffixes; back-to-back walks by reported length",
+     "valid units of every self-delimiting kind and all 8 PDU kinds (CRC on and off) followed by noise, another unit of the same kind, TLV-/LV-shaped and segment-request-sized octets: observed fields and reported "
+     "length identical to the unit decoded alone (PDUs may instead be refused); 2..4 units back to back recovered by decode/advance; accepted noise buffers that begin with a unit decode like their first N octets",
+     ORACLE_NOTE + "; observation functions read every user-visible field", "DESIGN.md section 4 C09"),
     ("C10", "exploration",
      PBT + " over a table of 53 public decoder entry points: arbitrary octets, exhaustive truncation points and header/length-field substitutions of valid units, CRC re-patching; oracle = allowed-exception table + watchdog",
      "per decoder family: arbitrary and structured-noise buffers, every strict prefix of generated valid units (self-delimiting units must be refused), single-octet substitutions at every header index and "
